@@ -204,6 +204,97 @@ fn wb(b: bool, out: &mut Vec<String>) {
     out.push(if b { "T".into() } else { "F".into() })
 }
 
+/// interpreter of the program syntax of coq/ND/Hand/Prog.v (prefix list of integers), generic in the number type
+fn prog_eval<D, F>(code: &[i64], pos: &mut usize, env: &mut Vec<D>) -> D
+where
+    D: DualNum<F>,
+    F: FBits,
+{
+    let tag = code[*pos];
+    *pos += 1;
+    let cf = |c: i64| <F as num_traits::NumCast>::from(c).unwrap();
+    match tag {
+        0 => {
+            let i = code[*pos] as usize;
+            *pos += 1;
+            env[i].clone()
+        }
+        1 => {
+            let c = code[*pos];
+            *pos += 1;
+            D::from(cf(c))
+        }
+        2 => {
+            let u = code[*pos];
+            *pos += 1;
+            let a = prog_eval::<D, F>(code, pos, env);
+            match u {
+                0 => -a,
+                1 => a.recip(),
+                2 => a.sqrt(),
+                3 => a.cbrt(),
+                4 => a.exp(),
+                5 => a.exp2(),
+                6 => a.exp_m1(),
+                7 => a.ln(),
+                8 => a.log2(),
+                9 => a.log10(),
+                10 => a.ln_1p(),
+                11 => a.sin(),
+                12 => a.cos(),
+                13 => a.tan(),
+                14 => a.asin(),
+                15 => a.acos(),
+                16 => a.atan(),
+                17 => a.sinh(),
+                18 => a.cosh(),
+                19 => a.tanh(),
+                20 => a.asinh(),
+                21 => a.acosh(),
+                _ => a.atanh(),
+            }
+        }
+        3 => {
+            let b = code[*pos];
+            *pos += 1;
+            let a = prog_eval::<D, F>(code, pos, env);
+            let c = prog_eval::<D, F>(code, pos, env);
+            match b {
+                0 => a + c,
+                1 => a - c,
+                2 => a * c,
+                _ => a / c,
+            }
+        }
+        4 => {
+            let b = code[*pos];
+            let c = cf(code[*pos + 1]);
+            *pos += 2;
+            let a = prog_eval::<D, F>(code, pos, env);
+            match b {
+                0 => a + c,
+                1 => a - c,
+                2 => a * c,
+                _ => a / c,
+            }
+        }
+        5 => {
+            let n = code[*pos] as i32;
+            *pos += 1;
+            let a = prog_eval::<D, F>(code, pos, env);
+            a.powi(n)
+        }
+        6 => {
+            let a = prog_eval::<D, F>(code, pos, env);
+            env.push(a);
+            let r = prog_eval::<D, F>(code, pos, env);
+            env.pop();
+            r
+        }
+        _ => panic!("bad program tag {tag}"),
+    }
+}
+
 /// operations available on every DualNum type
 fn run_dual<D, F>(op: &str, aux: &[&str], a: &[D]) -> Vec<String>
 where
@@ -238,6 +329,12 @@ where
         "powd" => a[0].powd(y()).wr(o),
         "atan2" => a[0].atan2(y()).wr(o),
         "mul_add" => a[0].mul_add(y(), a[2].clone()).wr(o),
+        "prog" => {
+            let code: Vec<i64> = aux.iter().map(|t| t.parse::<i64>().unwrap()).collect();
+            let mut env: Vec<D> = a.to_vec();
+            let mut pos = 0;
+            prog_eval::<D, F>(&code, &mut pos, &mut env).wr(o)
+        }
         "re" => o.push(a[0].re().wrf()),
         "display" => o.push(format!("s{}", hex_str(&format!("{}", a[0])))),
         "nderiv" => o.push(format!("i{}", D::NDERIV)),
@@ -433,14 +530,21 @@ fn dispatch(family: &str, ty: &str, op: &str, aux: &[&str], operands: &[Vec<&str
             "DualSVec64_1" => DualSVec64<1>, f64;
             "DualSVec64_2" => DualSVec64<2>, f64;
             "DualSVec64_3" => DualSVec64<3>, f64;
+            "DualSVec64_4" => DualSVec64<4>, f64;
+            "DualSVec64_5" => DualSVec64<5>, f64;
+            "DualSVec64_6" => DualSVec64<6>, f64;
             "DualDVec64" => DualDVec64, f64;
             "Dual2SVec64_1" => Dual2SVec64<1>, f64;
             "Dual2SVec64_2" => Dual2SVec64<2>, f64;
             "Dual2SVec64_3" => Dual2SVec64<3>, f64;
+            "Dual2SVec64_4" => Dual2SVec64<4>, f64;
+            "Dual2SVec64_5" => Dual2SVec64<5>, f64;
+            "Dual2SVec64_6" => Dual2SVec64<6>, f64;
             "Dual2DVec64" => Dual2DVec64, f64;
             "HyperDualSVec64_1_1" => HyperDualSVec64<1, 1>, f64;
             "HyperDualSVec64_2_3" => HyperDualSVec64<2, 3>, f64;
             "HyperDualSVec64_3_2" => HyperDualSVec64<3, 2>, f64;
+            "HyperDualSVec64_3_3" => HyperDualSVec64<3, 3>, f64;
             "HyperDualDVec64" => HyperDualDVec64, f64;
             "Dual_Dual64" => DD, f64;
             "Dual_Dual_Dual64" => DDD, f64;
